@@ -35,10 +35,13 @@ OBLIGATIONS = [
     (P + "mapper_constants_pinned", "Gen facts of url_mapper: forbidden key characters / ; , and keys . .. ; braces; digit test"),
     (P + "valid_key_addressable", "every key accepted by assign(key,url) is read by map as exactly that key of the addressed mapper (no navigation, no keywords)"),
     (P + "parseTpl_keyword_roundtrip", "a{key}b parses to a keyword placeholder; instantiation inserts the call's keyword parameter, else the set_value helper, else nothing"),
+    (P + "stackbuf_collects_all_bytes_in_order", "util::stackbuf<N> (N on-stack bytes, then heap with doubling; overflow() translated from steal_buf.h) holds exactly the bytes written, in order, for every length"),
+    (P + "mapUrlNT_eq", "default configuration (invalid_url_throws=false): map = the same URL cut at its first NUL (c_str), fixed text on error"),
+    (P + "mapper_dispatch_consistent_default_config", "mapper/dispatcher consistency in the default (non-throwing) configuration"),
     (P + "mapper_dispatch_consistent", "Consistent cfg => route (map key params) reaches the handler of key with exactly params, any depth"),
 ]
 
-KINDS = ("D", "MP", "P", "T", "U", "R")
+KINDS = ("D", "MP", "P", "T", "U", "Un", "R", "Rn")
 
 
 def hx(b):
@@ -434,7 +437,7 @@ def gen_T(rng, n, out):
                                              " ".join(hx(a) + " " + hx(b) for a, b in helpers)))
 
 
-PARAM_VALUES = ["1", "42", "abc", "", "x/y", "a b", "\xd7\xa9", "{1}", "007"]
+PARAM_VALUES = ["1", "42", "abc", "", "x/y", "a b", "\xd7\xa9", "{1}", "007", "z" * 127, "z" * 128, "z" * 129, "w" * 300, "v" * 1100, "a\0b"]
 
 
 def gen_mtree(rng, depth, names):
@@ -500,11 +503,14 @@ def gen_U(rng, n, out):
             nkw = key.count(",") + 1 if ";" in key else 0
             np_ = min(6, ar + (nkw if rng.random() < 0.8 else 0))
             params = [rng.choice(PARAM_VALUES) for _ in range(np_)]
-            out.append("U %s %s %s %s %d %s | %s |" % (hx(root), hw, ".".join(map(str, pos)) or "-", hx(key), np_,
+            out.append("%s %s %s %s %s %d %s | %s |" % (rng.choice(["U", "Un"]), hx(root), hw, ".".join(map(str, pos)) or "-", hx(key), np_,
                                                        " ".join(hx(p) for p in params), " ".join(tw)))
 
 
 # consistent (mapper template <-> dispatcher pattern) building blocks for R cases
+URL_LENGTH_TARGETS = [127, 128, 129, 130, 131, 255, 256, 257, 258, 259, 511, 512, 513, 514, 1023, 1024, 1025, 1026, 2047, 2048, 2049,
+                      4095, 4096, 4097, 4098, 8191, 8192, 8193]
+GROUP_FILL = {r"(\d+)": "7", r"([a-z]+)": "q", r"([^/]*)": "x", r"(.*)": "y"}
 R_GROUPS = [(r"(\d+)", lambda rng: _digits(rng)), (r"([a-z]+)", lambda rng: _word(rng)), (r"([^/]*)", lambda rng: rng.choice(["", "q", "a1", "w\nz"])),
             (r"(.*)", lambda rng: rng.choice(["", "t", "u/v", "w z"]))]
 
@@ -545,9 +551,10 @@ def gen_site(rng, depth, ids, keyn, chain=()):
             if rng.random() < 0.25 and ng > 0:
                 kind = "rh"
             items += ["L", str(hid), retok(rxp), "_", kind, "U", hx(key), hx(tpl)]
-            entries.append(dict(pos=[], key=key, tpl=tpl, samplers=[g[1] for g in gs], hid=hid, kind=kind, haslang=haslang, chain=list(chain)))
+            entries.append(dict(pos=[], key=key, tpl=tpl, samplers=[g[1] for g in gs], fills=[GROUP_FILL[g[0]] for g in gs], hid=hid, kind=kind,
+                                haslang=haslang, chain=list(chain)))
         elif what == "c":
-            name = "c%d" % keyn.next()
+            name = "c%d" % keyn.next() + "m" * rng.choice((0, 0, 0, 0, 40, 150))   # long mount prefixes
             style = rng.random()
             obs = None
             if style < 0.4:
@@ -636,9 +643,21 @@ def gen_R(rng, n, out, expect):
             if kws:
                 k += ";" + ",".join(kws)
             # reference: what the URL and the observations are supposed to be
-            us = [tpl_inst(e["tpl"], params, kv)]
-            for m in reversed(e["chain"]):
-                us.insert(0, tpl_inst(m["tpl"], [us[0]], kv))
+            def ref_urls(params):
+                us = [tpl_inst(e["tpl"], params, kv)]
+                for m in reversed(e["chain"]):
+                    us.insert(0, tpl_inst(m["tpl"], [us[0]], kv))
+                return us
+            if params and rng.random() < 0.3:
+                # long URLs: one parameter is stretched so that root+URL has a chosen length (the mapper builds the URL in a
+                # 128-byte stack buffer that moves to the heap and doubles: every boundary, at every alignment) or is just long
+                j = rng.randrange(len(params))
+                base = list(params); base[j] = ""
+                blen = len(root) + len(ref_urls(base)[0])
+                n = (rng.choice(URL_LENGTH_TARGETS) - blen) if rng.random() < 0.75 else rng.randrange(100, 2001)
+                if n >= 1:
+                    params[j] = e["fills"][j] * n
+            us = ref_urls(params)
             events = []
             for lvl, m in enumerate(e["chain"]):
                 if m["obs"] is not None:
@@ -652,9 +671,10 @@ def gen_R(rng, n, out, expect):
             allp = kwvals + params
             if len(allp) > 6:
                 continue
-            line = "R %s %s %d %s %s %s %d %s | %s |" % (hx("GET"), hx(root), len(helpers), " ".join(hx(a) + " " + hx(b) for a, b in helpers),
-                                                      ".".join(map(str, frm)) or "-", hx(k), len(allp),
-                                                      " ".join(hx(p) for p in allp), " ".join(tw))
+            line = "%s %s %s %d %s %s %s %d %s | %s |" % (rng.choice(["R", "Rn"]), hx("GET"), hx(root), len(helpers),
+                                                       " ".join(hx(a) + " " + hx(b) for a, b in helpers),
+                                                       ".".join(map(str, frm)) or "-", hx(k), len(allp),
+                                                       " ".join(hx(p) for p in allp), " ".join(tw))
             line = " ".join(line.split())
             out.append(line)
             expect[line] = (events, root + us[0])
@@ -784,11 +804,11 @@ def main():
 
         def nontrivial(cs, o):
             k = cs.split()[0]
-            if k in ("D", "P", "R"):
+            if k in ("D", "P", "R", "Rn"):
                 return cs if ("R" in o.split()[-1] or "X" in o.split()[-1]) and ":" in o.split()[-1] else None
             if k == "MP":
                 return cs if "1:" in o else None
-            if k in ("T", "U"):
+            if k in ("T", "U", "Un"):
                 return cs if ("ok:" in o or ("err:" in o and "badArity" not in o.replace("err:badArity", ""))) else None
             return None
         out_i, out_m, diffs, crashed = c.correspond("routing", full, hbin, model, nontrivial=nontrivial)
@@ -807,14 +827,14 @@ def main():
         for cs, o in zip(full, out_m):
             k = cs.split()[0]
             if "cfg-error" in o: branch["cfg_error"] += 1
-            if k in ("D", "P", "R"):
+            if k in ("D", "P", "R", "Rn"):
                 last = o.split()[-1] if o.split() else ""
                 if "R" in last and ":" in last: branch["handler_ran"] += 1
                 if "X" in last and ":" in last: branch["generic_declined"] += 1
                 if last.endswith("NF"): branch["child_404" if o.startswith("1") else "not_found_404"] += 1
                 if o.startswith("0 "): branch["not_found_404"] += 1
                 if o.startswith("exc"): branch["no_context_exception"] += 1
-            if k in ("T", "U", "R"):
+            if k in ("T", "U", "R", "Un", "Rn"):
                 if "ok:" in o: branch["mapper_ok"] += 1
                 elif o.startswith("err:") and k == "T": branch["tpl_error"] += 1
                 elif "err:" in o: branch["mapper_error"] += 1
@@ -840,7 +860,7 @@ def main():
 
         # judge: the specification (Spec.lean) evaluated on the same raw engine answers must agree with what the
         # implementation did (D, MP, P, R); for R additionally: the handler registered for the key ran with exactly the parameters
-        jidx = [k for k, cs in enumerate(full) if cs.split()[0] in ("D", "MP", "P", "R") and k < len(out_i)]
+        jidx = [k for k, cs in enumerate(full) if cs.split()[0] in ("D", "MP", "P", "R", "Rn") and k < len(out_i)]
         rcj, jout, jerr = c.run_lines(model, ["J " + full[k] + " # " + out_i[k] for k in jidx]) if jidx else (0, [], "")
         bad = []
         for k, o in zip(jidx, jout):
@@ -875,6 +895,13 @@ def main():
             ev = " ".join("%s %d %d %s" % (t, i, len(a), " ".join("~" if x is None else hx(x) for x in a)) for t, i, a in events)
             rlines.append("JR %d %s %s # %s" % (len(events), " ".join(ev.split()), full[k], out_i[k]))
         c.extra_cov["mapped_urls_checked_against_reference"] = nurl
+        lens = [(len(exp_full[full[k]][1]), full[k].startswith("Rn ")) for k in ridx]
+        c.extra_cov["mapped_url_lengths"] = {
+            "default_config_invalid_url_throws_false": sum(1 for l, nt in lens if nt),
+            "throwing_config": sum(1 for l, nt in lens if not nt),
+            **{"default_config_len_ge_%d" % b: sum(1 for l, nt in lens if nt and l >= b) for b in (129, 257, 513, 1025, 2049, 4097, 8193)},
+            "default_config_len_exactly_at_a_boundary_pm2": sum(1 for l, nt in lens if nt and any(abs(l - b) <= 2 for b in (128, 256, 512, 1024, 2048, 4096, 8192))),
+        }
         rcr, rout, rerr = c.run_lines(model, rlines) if rlines else (0, [], "")
         if rcr != 0 or len(rout) != len(ridx):
             c.broke("judge run (Consistent)", rerr)
